@@ -29,6 +29,7 @@ from six.moves import range  # type: ignore
 from pydicom.dataset import Dataset
 
 from . import dsutils
+from . import exceptions
 from . import pdu
 
 NO_DATASET = 0x0101
@@ -188,6 +189,11 @@ class DIMSEMessage(object):
         :return: generator of P-DATA-TF PDUs
         :rtype: Iterator[pdu.PDataTfPDU]
         """
+        if 0 < max_pdu_length < 7:
+            # 6 bytes of every P-DATA-TF are PDV header: nothing can be sent within such a maximum.
+            # Say so to the caller instead of sending nothing (or failing later in the provider thread)
+            raise exceptions.DIMSEProcessingError(
+                'Maximum PDU length {0} leaves no room for a message fragment'.format(max_pdu_length))
         # The message is encoded now; only the fragmentation is lazy. The returned generator is
         # consumed later by the provider thread, by which time the caller may already have changed
         # this object (service providers reuse one response object for several responses).
